@@ -129,6 +129,17 @@ def run(ctx):
         r3.check(bool(setc) and bool(claim) and all(h.dominates(claim[0].block, blk) for blk, st in setc), "remember-on-checkout", "connected_to_server is set right after the checkout", "connected_to_server is not set after the checkout")
         lss = [(blk, st) for blk, i, st in h.assigns() if proj_fields(st["lhs"])[-1:] == ["last_server_stats"]]
         r3.check(any("pgcat::server::Server::stats" in {o.call.name for o in origins(h, st["rv"].get("op") or (st["rv"]["ops"][0] if st["rv"].get("ops") else {}), taint=True) if o.kind == "call"} for blk, st in lss), "remember-stats", "the client remembers the checked-out server's stats handle (for abrupt exits)", "last_server_stats is not taken from the checked-out server")
+        # ... on every path: the handle Drop uses must be the one of the connection held now, not of an earlier checkout
+        if gets and claim:
+            good = [blk for blk, st in lss if "pgcat::server::Server::stats" in {o.call.name for o in origins(h, st["rv"].get("op") or (st["rv"]["ops"][0] if st["rv"].get("ops") else {}), taint=True) if o.kind == "call"}]
+            inner_c = [hd for hd in heads if hd != outer and h.dominates(claim[0].block, hd)]
+            if inner_c and good:
+                wit = h.uncrossed_path([claim[0].block], [min(inner_c)], blocks=good)
+                r3.check(wit is None, "remember-stats-every-checkout", "every checkout refreshes last_server_stats before the transaction loop is entered",
+                         "a checkout can enter the transaction loop with last_server_stats still pointing at an earlier connection: after an abrupt exit Drop marks the wrong connection idle and the one actually held stays `active` for ever",
+                         "", wit and h.describe_path(wit))
+            else:
+                r3.missing("transaction loop / last_server_stats assignment after the checkout")
     cd = ctx.body("<pgcat::client::Client<S, T> as core::ops::drop::Drop>::drop", r3)
     if cd:
         T, Fa = field_bool_edges(cd, "connected_to_server")
